@@ -78,20 +78,19 @@ theorem inv_run (st : St) (h : Inv st) (ops : List Op) : Inv (run st ops) := by
   | nil => exact h
   | cons op ops ih => exact ih _ (inv_step st h op)
 
-theorem step_static (st : St) (op : Op) :
-    (step st op).dcs = st.dcs ∧ (step st op).bits = st.bits := by
+theorem step_static (st : St) (op : Op) : (step st op).bits = st.bits := by
   unfold step tick
   cases op <;> simp only <;> repeat' split
-  all_goals exact ⟨by simp, by simp⟩
+  all_goals simp
 
-theorem run_static (st : St) (ops : List Op) : (run st ops).dcs = st.dcs ∧ (run st ops).bits = st.bits := by
+theorem run_static (st : St) (ops : List Op) : (run st ops).bits = st.bits := by
   induction ops generalizing st with
-  | nil => exact ⟨rfl, rfl⟩
+  | nil => rfl
   | cons op ops ih =>
     have h1 := ih (step st op)
     have h2 := step_static st op
     simp only [run, List.foldl_cons] at h1 ⊢
-    exact ⟨h1.1.trans h2.1, h1.2.trans h2.2⟩
+    exact h1.trans h2
 
 /-- a suffix table as the cluster uses it: 0 for the global allocator, pairwise distinct positive
     suffixes below `2^bits` for the dcs -/
@@ -122,16 +121,16 @@ theorem pairwise_mem_cases {α} {R : α → α → Prop} {l : List α} (h : l.Pa
     completed before the global request began; every local timestamp requested after a global one was
     returned is larger than it; global timestamps are pairwise distinct and ordered by real time. -/
 theorem C05_holds (st0 : St) (hwf : WF st0) (he : st0.events = []) (hr : st0.req = none)
-    (sfx : Nat → Nat) (hs : SuffixTable st0 sfx) (ops : List Op) :
+    (sfx : Nat → Nat) (ops : List Op) (hs : SuffixTable (run st0 ops) sfx) :
     C05.Holds ((run st0 ops).events.map (toObs st0.bits sfx)) := by
   have hinv := inv_run st0 (inv_of_init st0 hwf he hr) ops
-  obtain ⟨hdcs, hbits⟩ := run_static st0 ops
-  generalize run st0 ops = st at hinv hdcs hbits
+  have hbits := run_static st0 ops
+  generalize run st0 ops = st at hinv hbits hs
   have hsfx_lt : ∀ e ∈ st.events, sfx e.alloc < 2 ^ st0.bits := by
     intro e hem
     rcases hinv.iA e hem with h0 | hd
     · rw [h0, hs.glob0]; exact Nat.pos_of_ne_zero (by simp)
-    · exact (hs.pos _ (hdcs ▸ hd)).2
+    · exact hbits ▸ (hs.pos _ hd).2
   refine ⟨?_, ?_, ?_, ?_⟩
   · -- (a)
     intro a ha b hb hne
@@ -143,9 +142,9 @@ theorem C05_holds (st0 : St) (hwf : WF st0) (he : st0.events = []) (hr : st0.req
     have := (differentiate_injective _ _ _ _ _ (hsfx_lt x hx) (hsfx_lt y hy) hlog).2
     rcases hinv.iA x hx with hx0 | hxd <;> rcases hinv.iA y hy with hy0 | hyd
     · exact hne (hx0.trans hy0.symm)
-    · rw [hx0, hs.glob0] at this; have := (hs.pos _ (hdcs ▸ hyd)).1; omega
-    · rw [hy0, hs.glob0] at this; have := (hs.pos _ (hdcs ▸ hxd)).1; omega
-    · exact hne (hs.inj _ (hdcs ▸ hxd) _ (hdcs ▸ hyd) this)
+    · rw [hx0, hs.glob0] at this; have := (hs.pos _ hyd).1; omega
+    · rw [hy0, hs.glob0] at this; have := (hs.pos _ hxd).1; omega
+    · exact hne (hs.inj _ hxd _ hyd this)
   · -- (b)
     intro g hg hg0 l hl hl0 hlt
     simp only [List.mem_map] at hg hl
@@ -337,6 +336,13 @@ def demoOps : List Op :=
 example : ((run demoSt demoOps).events.map (fun e => (e.alloc, e.ts))).reverse
     = [(1, (100, 8)), (2, (300, 10)), (1, (100, 9)), (2, (300, 16)), (0, (300, 12)), (1, (300, 13)), (2, (300, 17))] := by
   decide
+
+/-- non-vacuity of the join: after the demo history a third datacenter joins on server 10; its first local
+    timestamp is above the global one returned before, and the join is refused while a request is in flight -/
+example : ((run demoSt (demoOps ++ [.dcJoin 3 10, .localGrant 3 1])).events.head?.map (fun e => (e.alloc, e.ts)))
+    = some (3, (300, 18)) := by decide
+
+example : (run demoSt [.gStart 1 0, .dcJoin 3 10]).dcs = [1, 2] := by decide
 
 /-- structure obligations re-checked against the facts regenerated from the Go source: global requests
     that synchronise take the sync mutex before estimating (F11), the suffix creation is a leader-guarded
